@@ -292,12 +292,44 @@ def locked_pool_rule(rep, f):
            "src/xercesc/framework/XMLGrammarPoolImpl.cpp")
 
 
+def row_reset_rule(rep, f):
+    rep.rule("C15.e", "pooled rows are cleared whole: for every member that is a table of separately allocated rows "
+             "(F[i] = allocate(S)), each memset that clears a row (memset(F[j], 0, n)) uses n == S, the size the rows are "
+             "allocated with — a reset that clears only part of a row leaves values of the previous document in slots that are "
+             "handed out again (the scanners' unsigned-int pool backs the per-element attribute bookkeeping)")
+    alloc = {}
+    for x in f.kind("asg"):
+        l = x["lhs"]
+        if l[0] == "x" and l[1][0] == "f" and len(l[1]) == 2:
+            for s in sx_walk(x["rhs"]):
+                if isinstance(s, list) and s and s[0] == "c" and s[1].endswith("::allocate") and s[3]:
+                    alloc.setdefault(l[1][1], []).append((s[3][0], x["_fn"]["q"], x.get("l", 0)))
+    n = 0
+    for x in f.kind("call"):
+        c = x["x"]
+        if c[1] != "memset" or len(c[3]) != 3:
+            continue
+        d = c[3][0]
+        if not (d[0] == "x" and d[1][0] == "f" and len(d[1]) == 2 and d[1][1] in alloc):
+            continue
+        n += 1
+        F = d[1][1]
+        ok = any(c[3][2] == a[0] for a in alloc[F])
+        rep.ob("C15.e", "%s@memset(%s[..])" % (x["_fn"]["q"], F.split("::")[-1]), ok,
+               "clears %s, the size the rows are allocated with" % core.sx_str(c[3][2]) if ok else
+               "%s (line %s) clears %s bytes of a row of %s, but rows are allocated with %s bytes (%s): the rest of the row keeps "
+               "values from the previous use" % (x["_fn"]["q"], x.get("l"), core.sx_str(c[3][2]), F, core.sx_str(alloc[F][0][0]), alloc[F][0][1]),
+               "%s:%s" % (x["_fn"]["file"], x.get("l", 0)))
+    rep.floor("C15.e", n, 3)
+
+
 def run(rep):
     f = core.library_facts()
     rep.units.update(os.path.relpath(t, core.REPO) for t in f.tus)
     reset_rule(rep, f)
     janitor_rule(rep, f)
     locked_pool_rule(rep, f)
+    row_reset_rule(rep, f)
     diag.run(rep, f, "C15")
     rep.undecided += ["equality of the n-th parse's outcome with a fresh parser's (value-level)",
                       "transparency of cached/preloaded grammars for validation verdicts",
